@@ -89,7 +89,7 @@ class OverloadedFunctionDef(CompiledCallableDef, CallableDef):
             with suppress(GuppyError):
                 # Checking a call annotates the argument nodes in place, so every variant
                 # must be tried on its own copy of the arguments
-                return defn.check_call(copy.deepcopy(args), ty, node, ctx)
+                return defn.check_call(_copy_args(args), ty, node, ctx)
         return self._call_error(args, node, ctx, available_sigs, ty)
 
     def synthesize_call(
@@ -101,7 +101,7 @@ class OverloadedFunctionDef(CompiledCallableDef, CallableDef):
             assert isinstance(defn, CallableDef)
             available_sigs.append(defn.ty)
             with suppress(GuppyError):
-                return defn.synthesize_call(copy.deepcopy(args), node, ctx)
+                return defn.synthesize_call(_copy_args(args), node, ctx)
         return self._call_error(args, node, ctx, available_sigs)
 
     def _call_error(
@@ -151,3 +151,23 @@ class OverloadedFunctionDef(CompiledCallableDef, CallableDef):
         raise InternalGuppyError(
             "OverloadedFunctionDef.load_with_args shouldn't be invoked"
         )
+
+
+def _copy_args(args: list[ast.expr]) -> list[ast.expr]:
+    """Copies the AST nodes of call arguments.
+
+    Only the nodes are duplicated. Everything they refer to (places, types, and the
+    comptime values that argument places carry during tracing) is shared.
+    """
+
+    def go(x: object) -> object:
+        if isinstance(x, ast.AST):
+            new = copy.copy(x)
+            for name, value in ast.iter_fields(x):
+                setattr(new, name, go(value))
+            return new
+        if isinstance(x, list):
+            return [go(y) for y in x]
+        return x
+
+    return [go(arg) for arg in args]  # type: ignore[misc]
